@@ -1,0 +1,726 @@
+//! Verification hooks (compiled only with the cargo feature `verif-hooks`).
+//!
+//! Drop-in wrappers around the *real* `std` atomics, `dashmap::DashMap` and
+//! `crossbeam::queue::SegQueue` used by this crate. Every wrapped operation reports a
+//! `Before` event, performs the real operation, and reports an `After` event carrying the
+//! outcome to a **thread-local** callback. Without a registered callback the wrappers are
+//! plain forwarding calls. An external model checker uses the `Before` event as a
+//! scheduling point (it may suspend the calling coroutine inside the callback) and the
+//! `After` event to mirror ownership of orders.
+//!
+//! Nothing in here changes the behaviour of the crate; with the feature off this file is
+//! not compiled at all.
+
+use std::cell::{Cell, RefCell};
+use std::hash::Hash;
+use std::rc::Rc;
+use std::sync::atomic::Ordering;
+
+/// Which wrapped object class an event belongs to.
+#[derive(Debug, Clone, Copy, PartialEq, Eq, Hash)]
+pub enum Class {
+    /// `AtomicU64` wrapper
+    U64,
+    /// `AtomicUsize` wrapper
+    Usize,
+    /// `DashMap` wrapper
+    Map,
+    /// `SegQueue` wrapper
+    Queue,
+}
+
+/// Operation kinds reported by the wrappers.
+#[derive(Debug, Clone, Copy, PartialEq, Eq, Hash)]
+pub enum Kind {
+    /// object construction (phase `New` only)
+    Create,
+    /// atomic load
+    Load,
+    /// atomic store
+    Store,
+    /// atomic fetch_add
+    FetchAdd,
+    /// atomic fetch_sub
+    FetchSub,
+    /// any other atomic read-modify-write
+    Rmw,
+    /// map insert
+    Insert,
+    /// map remove
+    Remove,
+    /// map get / contains_key
+    Get,
+    /// map iteration
+    Iter,
+    /// map len / is_empty
+    Len,
+    /// queue push
+    Push,
+    /// queue pop
+    Pop,
+    /// an operation reached through `Deref` to the inner object (not mirrored)
+    Other,
+}
+
+/// Event phase.
+#[derive(Debug, Clone, Copy, PartialEq, Eq, Hash)]
+pub enum Phase {
+    /// a wrapper object was constructed
+    New,
+    /// about to perform the operation (scheduling point)
+    Before,
+    /// the operation has been performed; outcome fields are valid
+    After,
+}
+
+/// One report from a wrapper.
+#[derive(Debug, Clone, Copy, PartialEq, Eq, Hash)]
+pub struct Event {
+    /// phase
+    pub phase: Phase,
+    /// per-thread sequential object id assigned at construction
+    pub obj: u64,
+    /// object class
+    pub class: Class,
+    /// operation
+    pub kind: Kind,
+    /// map key / queue element (16 id bytes) where applicable
+    pub key: Option<[u8; 16]>,
+    /// map: entry was found (remove/get) or replaced (insert); queue pop: an element was returned
+    pub found: bool,
+    /// map insert/remove: displayed quantity of the order moved
+    pub vis: u64,
+    /// map insert/remove: hidden quantity of the order moved
+    pub hid: u64,
+    /// atomics: operand (value stored / added / subtracted)
+    pub arg: u64,
+    /// atomics: value before the operation (After only); map len: the length
+    pub old: u64,
+    /// atomics: value after the operation (After only)
+    pub new: u64,
+}
+
+impl Event {
+    fn base(phase: Phase, obj: u64, class: Class, kind: Kind) -> Self {
+        Event {
+            phase,
+            obj,
+            class,
+            kind,
+            key: None,
+            found: false,
+            vis: 0,
+            hid: 0,
+            arg: 0,
+            old: 0,
+            new: 0,
+        }
+    }
+}
+
+/// Callback type.
+pub type Hook = Rc<dyn Fn(&Event)>;
+
+thread_local! {
+    static HOOK: RefCell<Option<Hook>> = const { RefCell::new(None) };
+    static NEXT_OBJ: Cell<u64> = const { Cell::new(0) };
+    static LISTING_PERM: Cell<Option<usize>> = const { Cell::new(None) };
+    static LISTING_CALLS: Cell<u64> = const { Cell::new(0) };
+}
+
+/// Register (or clear) the calling thread's callback.
+pub fn set_thread_hook(hook: Option<Hook>) {
+    HOOK.with(|h| *h.borrow_mut() = hook);
+}
+
+/// Take the calling thread's callback out (returns it), leaving none registered.
+pub fn take_thread_hook() -> Option<Hook> {
+    HOOK.with(|h| h.borrow_mut().take())
+}
+
+/// Restart the calling thread's object-id numbering (ids are per thread and sequential).
+pub fn reset_object_ids() {
+    NEXT_OBJ.with(|n| n.set(0));
+}
+
+/// Choose how `OrderQueue::to_vec` orders entries *before* its timestamp sort:
+/// `None` = leave the map iteration order alone (default), `Some(k)` = put the entries in
+/// canonical id order and apply the k-th permutation (factorial number system).
+pub fn set_listing_permutation(perm: Option<usize>) {
+    LISTING_PERM.with(|p| p.set(perm));
+}
+
+/// Number of times the listing seam has been reached on this thread.
+pub fn listing_calls() -> u64 {
+    LISTING_CALLS.with(|c| c.get())
+}
+
+#[inline]
+fn hook_active() -> bool {
+    HOOK.with(|h| h.borrow().is_some())
+}
+
+#[inline]
+fn emit(ev: &Event) {
+    // the handle is cloned out of its slot before it is invoked, so the callback may suspend
+    // its caller while other program threads on the same OS thread keep reporting
+    let hook = HOOK.with(|h| h.borrow().clone());
+    if let Some(hook) = hook {
+        hook(ev);
+    }
+}
+
+fn new_object(class: Class) -> u64 {
+    let id = NEXT_OBJ.with(|n| {
+        let id = n.get();
+        n.set(id + 1);
+        id
+    });
+    if hook_active() {
+        emit(&Event::base(Phase::New, id, class, Kind::Create));
+    }
+    id
+}
+
+/// Values that can identify themselves to the hook (map keys, queue elements).
+pub trait VerifKey {
+    /// 16 identifying bytes
+    fn verif_key(&self) -> [u8; 16];
+}
+
+/// Map values that can report the quantities they carry.
+pub trait VerifVal {
+    /// (displayed, hidden)
+    fn verif_quantities(&self) -> (u64, u64);
+    /// 16 identifying bytes of the value (its order id)
+    fn verif_id(&self) -> [u8; 16];
+}
+
+impl VerifKey for crate::orders::OrderId {
+    fn verif_key(&self) -> [u8; 16] {
+        self.as_bytes()
+    }
+}
+
+impl VerifVal for std::sync::Arc<crate::orders::OrderType<()>> {
+    fn verif_quantities(&self) -> (u64, u64) {
+        (self.visible_quantity(), self.hidden_quantity())
+    }
+    fn verif_id(&self) -> [u8; 16] {
+        self.id().as_bytes()
+    }
+}
+
+/// Listing seam, called by `OrderQueue::to_vec` before its timestamp sort.
+pub fn order_listing<V: VerifVal>(orders: &mut [V]) {
+    LISTING_CALLS.with(|c| c.set(c.get() + 1));
+    let Some(mut k) = LISTING_PERM.with(|p| p.get()) else {
+        return;
+    };
+    orders.sort_by_key(|o| o.verif_id());
+    // k-th permutation, factorial number system (k = 0 is the identity)
+    let n = orders.len();
+    for i in 0..n {
+        let radix = n - i;
+        let j = k % radix;
+        k /= radix;
+        orders[i..=i + j].rotate_right(1);
+    }
+}
+
+macro_rules! atomic_wrapper {
+    ($name:ident, $inner:ty, $prim:ty, $class:expr) => {
+        /// Hooked drop-in for the std atomic of the same name.
+        pub struct $name {
+            inner: $inner,
+            id: u64,
+        }
+
+        impl $name {
+            /// see std
+            pub fn new(v: $prim) -> Self {
+                Self {
+                    inner: <$inner>::new(v),
+                    id: new_object($class),
+                }
+            }
+
+            #[inline]
+            fn op<R>(
+                &self,
+                kind: Kind,
+                arg: $prim,
+                f: impl FnOnce(&$inner) -> R,
+                old_of: impl FnOnce(&R) -> $prim,
+                new_of: impl FnOnce($prim) -> $prim,
+            ) -> R {
+                if !hook_active() {
+                    return f(&self.inner);
+                }
+                let mut ev = Event::base(Phase::Before, self.id, $class, kind);
+                ev.arg = arg as u64;
+                emit(&ev);
+                let r = f(&self.inner);
+                let old = old_of(&r);
+                ev.phase = Phase::After;
+                ev.old = old as u64;
+                ev.new = new_of(old) as u64;
+                emit(&ev);
+                r
+            }
+
+            /// see std
+            pub fn load(&self, order: Ordering) -> $prim {
+                self.op(Kind::Load, 0, |a| a.load(order), |r| *r, |o| o)
+            }
+
+            /// see std
+            pub fn store(&self, v: $prim, order: Ordering) {
+                if !hook_active() {
+                    return self.inner.store(v, order);
+                }
+                let mut ev = Event::base(Phase::Before, self.id, $class, Kind::Store);
+                ev.arg = v as u64;
+                emit(&ev);
+                // the previous value is read only for the report
+                let old = self.inner.swap(v, order_for_swap(order));
+                ev.phase = Phase::After;
+                ev.old = old as u64;
+                ev.new = v as u64;
+                emit(&ev);
+            }
+
+            /// see std
+            pub fn swap(&self, v: $prim, order: Ordering) -> $prim {
+                self.op(Kind::Rmw, v, |a| a.swap(v, order), |r| *r, |_| v)
+            }
+
+            /// see std
+            pub fn fetch_add(&self, v: $prim, order: Ordering) -> $prim {
+                self.op(
+                    Kind::FetchAdd,
+                    v,
+                    |a| a.fetch_add(v, order),
+                    |r| *r,
+                    |o| o.wrapping_add(v),
+                )
+            }
+
+            /// see std
+            pub fn fetch_sub(&self, v: $prim, order: Ordering) -> $prim {
+                self.op(
+                    Kind::FetchSub,
+                    v,
+                    |a| a.fetch_sub(v, order),
+                    |r| *r,
+                    |o| o.wrapping_sub(v),
+                )
+            }
+
+            /// see std
+            pub fn fetch_max(&self, v: $prim, order: Ordering) -> $prim {
+                self.op(Kind::Rmw, v, |a| a.fetch_max(v, order), |r| *r, |o| o.max(v))
+            }
+
+            /// see std
+            pub fn fetch_min(&self, v: $prim, order: Ordering) -> $prim {
+                self.op(Kind::Rmw, v, |a| a.fetch_min(v, order), |r| *r, |o| o.min(v))
+            }
+
+            /// see std
+            pub fn fetch_and(&self, v: $prim, order: Ordering) -> $prim {
+                self.op(Kind::Rmw, v, |a| a.fetch_and(v, order), |r| *r, |o| o & v)
+            }
+
+            /// see std
+            pub fn fetch_or(&self, v: $prim, order: Ordering) -> $prim {
+                self.op(Kind::Rmw, v, |a| a.fetch_or(v, order), |r| *r, |o| o | v)
+            }
+
+            /// see std
+            pub fn fetch_xor(&self, v: $prim, order: Ordering) -> $prim {
+                self.op(Kind::Rmw, v, |a| a.fetch_xor(v, order), |r| *r, |o| o ^ v)
+            }
+
+            /// see std
+            pub fn compare_exchange(
+                &self,
+                current: $prim,
+                new: $prim,
+                success: Ordering,
+                failure: Ordering,
+            ) -> Result<$prim, $prim> {
+                self.op(
+                    Kind::Rmw,
+                    new,
+                    |a| a.compare_exchange(current, new, success, failure),
+                    |r| match r {
+                        Ok(o) | Err(o) => *o,
+                    },
+                    |o| if o == current { new } else { o },
+                )
+            }
+
+            /// see std (never fails spuriously here: forwarded to the strong version)
+            pub fn compare_exchange_weak(
+                &self,
+                current: $prim,
+                new: $prim,
+                success: Ordering,
+                failure: Ordering,
+            ) -> Result<$prim, $prim> {
+                self.compare_exchange(current, new, success, failure)
+            }
+
+            /// see std; every attempt is a separate load + compare_exchange step
+            pub fn fetch_update<F>(
+                &self,
+                set_order: Ordering,
+                fetch_order: Ordering,
+                mut f: F,
+            ) -> Result<$prim, $prim>
+            where
+                F: FnMut($prim) -> Option<$prim>,
+            {
+                let mut prev = self.load(fetch_order);
+                while let Some(next) = f(prev) {
+                    match self.compare_exchange(prev, next, set_order, fetch_order) {
+                        x @ Ok(_) => return x,
+                        Err(next_prev) => prev = next_prev,
+                    }
+                }
+                Err(prev)
+            }
+
+            /// see std
+            pub fn get_mut(&mut self) -> &mut $prim {
+                self.inner.get_mut()
+            }
+
+            /// see std
+            pub fn into_inner(self) -> $prim {
+                self.inner.into_inner()
+            }
+        }
+
+        impl Default for $name {
+            fn default() -> Self {
+                Self::new(0)
+            }
+        }
+
+        /// Anything not wrapped above is still reachable; the access is reported as one
+        /// `Other` step (a scheduling point).
+        impl std::ops::Deref for $name {
+            type Target = $inner;
+            fn deref(&self) -> &Self::Target {
+                if hook_active() {
+                    let mut ev = Event::base(Phase::Before, self.id, $class, Kind::Other);
+                    emit(&ev);
+                    ev.phase = Phase::After;
+                    emit(&ev);
+                }
+                &self.inner
+            }
+        }
+
+        impl From<$prim> for $name {
+            fn from(v: $prim) -> Self {
+                Self::new(v)
+            }
+        }
+
+        impl std::fmt::Debug for $name {
+            fn fmt(&self, f: &mut std::fmt::Formatter<'_>) -> std::fmt::Result {
+                std::fmt::Debug::fmt(&self.inner, f)
+            }
+        }
+
+        impl serde::Serialize for $name {
+            fn serialize<S: serde::Serializer>(&self, serializer: S) -> Result<S::Ok, S::Error> {
+                self.load(Ordering::Relaxed).serialize(serializer)
+            }
+        }
+
+        impl<'de> serde::Deserialize<'de> for $name {
+            fn deserialize<D: serde::Deserializer<'de>>(deserializer: D) -> Result<Self, D::Error> {
+                <$prim as serde::Deserialize>::deserialize(deserializer).map(Self::new)
+            }
+        }
+    };
+}
+
+fn order_for_swap(order: Ordering) -> Ordering {
+    match order {
+        Ordering::Relaxed => Ordering::Relaxed,
+        Ordering::Release => Ordering::Release,
+        _ => Ordering::SeqCst,
+    }
+}
+
+atomic_wrapper!(AtomicU64, std::sync::atomic::AtomicU64, u64, Class::U64);
+atomic_wrapper!(AtomicUsize, std::sync::atomic::AtomicUsize, usize, Class::Usize);
+
+/// Hooked drop-in for `dashmap::DashMap`.
+pub struct DashMap<K, V> {
+    inner: dashmap::DashMap<K, V>,
+    id: u64,
+}
+
+impl<K: Eq + Hash + VerifKey, V: VerifVal> DashMap<K, V> {
+    /// see dashmap
+    pub fn new() -> Self {
+        Self {
+            inner: dashmap::DashMap::new(),
+            id: new_object(Class::Map),
+        }
+    }
+
+    /// see dashmap
+    pub fn with_capacity(capacity: usize) -> Self {
+        Self {
+            inner: dashmap::DashMap::with_capacity(capacity),
+            id: new_object(Class::Map),
+        }
+    }
+
+    /// see dashmap
+    pub fn insert(&self, key: K, value: V) -> Option<V> {
+        if !hook_active() {
+            return self.inner.insert(key, value);
+        }
+        let mut ev = Event::base(Phase::Before, self.id, Class::Map, Kind::Insert);
+        ev.key = Some(key.verif_key());
+        let (vis, hid) = value.verif_quantities();
+        ev.vis = vis;
+        ev.hid = hid;
+        emit(&ev);
+        let r = self.inner.insert(key, value);
+        ev.phase = Phase::After;
+        ev.found = r.is_some();
+        emit(&ev);
+        r
+    }
+
+    /// see dashmap
+    pub fn remove(&self, key: &K) -> Option<(K, V)> {
+        if !hook_active() {
+            return self.inner.remove(key);
+        }
+        let mut ev = Event::base(Phase::Before, self.id, Class::Map, Kind::Remove);
+        ev.key = Some(key.verif_key());
+        emit(&ev);
+        let r = self.inner.remove(key);
+        ev.phase = Phase::After;
+        if let Some((_, v)) = &r {
+            ev.found = true;
+            let (vis, hid) = v.verif_quantities();
+            ev.vis = vis;
+            ev.hid = hid;
+        }
+        emit(&ev);
+        r
+    }
+
+    /// see dashmap
+    pub fn remove_if(&self, key: &K, f: impl FnOnce(&K, &V) -> bool) -> Option<(K, V)> {
+        if !hook_active() {
+            return self.inner.remove_if(key, f);
+        }
+        let mut ev = Event::base(Phase::Before, self.id, Class::Map, Kind::Remove);
+        ev.key = Some(key.verif_key());
+        emit(&ev);
+        let r = self.inner.remove_if(key, f);
+        ev.phase = Phase::After;
+        if let Some((_, v)) = &r {
+            ev.found = true;
+            let (vis, hid) = v.verif_quantities();
+            ev.vis = vis;
+            ev.hid = hid;
+        }
+        emit(&ev);
+        r
+    }
+
+    /// see dashmap
+    pub fn get(&self, key: &K) -> Option<dashmap::mapref::one::Ref<'_, K, V>> {
+        if !hook_active() {
+            return self.inner.get(key);
+        }
+        let mut ev = Event::base(Phase::Before, self.id, Class::Map, Kind::Get);
+        ev.key = Some(key.verif_key());
+        emit(&ev);
+        let r = self.inner.get(key);
+        ev.phase = Phase::After;
+        if let Some(v) = &r {
+            ev.found = true;
+            let (vis, hid) = v.value().verif_quantities();
+            ev.vis = vis;
+            ev.hid = hid;
+        }
+        emit(&ev);
+        r
+    }
+
+    /// see dashmap
+    pub fn contains_key(&self, key: &K) -> bool {
+        if !hook_active() {
+            return self.inner.contains_key(key);
+        }
+        let mut ev = Event::base(Phase::Before, self.id, Class::Map, Kind::Get);
+        ev.key = Some(key.verif_key());
+        emit(&ev);
+        let r = self.inner.contains_key(key);
+        ev.phase = Phase::After;
+        ev.found = r;
+        emit(&ev);
+        r
+    }
+
+    /// see dashmap
+    pub fn iter(&self) -> dashmap::iter::Iter<'_, K, V> {
+        if hook_active() {
+            let mut ev = Event::base(Phase::Before, self.id, Class::Map, Kind::Iter);
+            emit(&ev);
+            ev.phase = Phase::After;
+            emit(&ev);
+        }
+        self.inner.iter()
+    }
+
+    /// see dashmap
+    pub fn len(&self) -> usize {
+        if !hook_active() {
+            return self.inner.len();
+        }
+        let mut ev = Event::base(Phase::Before, self.id, Class::Map, Kind::Len);
+        emit(&ev);
+        let r = self.inner.len();
+        ev.phase = Phase::After;
+        ev.old = r as u64;
+        emit(&ev);
+        r
+    }
+
+    /// see dashmap
+    pub fn is_empty(&self) -> bool {
+        self.len() == 0
+    }
+}
+
+impl<K: Eq + Hash + VerifKey, V: VerifVal> Default for DashMap<K, V> {
+    fn default() -> Self {
+        Self::new()
+    }
+}
+
+/// Anything not wrapped above is still reachable; the access itself is reported as one
+/// `Other` step (a scheduling point), but its effect is not mirrored.
+impl<K: Eq + Hash, V> std::ops::Deref for DashMap<K, V> {
+    type Target = dashmap::DashMap<K, V>;
+    fn deref(&self) -> &Self::Target {
+        if hook_active() {
+            let mut ev = Event::base(Phase::Before, self.id, Class::Map, Kind::Other);
+            emit(&ev);
+            ev.phase = Phase::After;
+            emit(&ev);
+        }
+        &self.inner
+    }
+}
+
+impl<K: Eq + Hash + std::fmt::Debug, V: std::fmt::Debug> std::fmt::Debug for DashMap<K, V> {
+    fn fmt(&self, f: &mut std::fmt::Formatter<'_>) -> std::fmt::Result {
+        std::fmt::Debug::fmt(&self.inner, f)
+    }
+}
+
+/// Hooked drop-in for `crossbeam::queue::SegQueue`.
+pub struct SegQueue<T> {
+    inner: crossbeam::queue::SegQueue<T>,
+    id: u64,
+}
+
+impl<T: VerifKey> SegQueue<T> {
+    /// see crossbeam
+    pub fn new() -> Self {
+        Self {
+            inner: crossbeam::queue::SegQueue::new(),
+            id: new_object(Class::Queue),
+        }
+    }
+
+    /// see crossbeam
+    pub fn push(&self, value: T) {
+        if !hook_active() {
+            return self.inner.push(value);
+        }
+        let mut ev = Event::base(Phase::Before, self.id, Class::Queue, Kind::Push);
+        ev.key = Some(value.verif_key());
+        emit(&ev);
+        self.inner.push(value);
+        ev.phase = Phase::After;
+        emit(&ev);
+    }
+
+    /// see crossbeam
+    pub fn pop(&self) -> Option<T> {
+        if !hook_active() {
+            return self.inner.pop();
+        }
+        let mut ev = Event::base(Phase::Before, self.id, Class::Queue, Kind::Pop);
+        emit(&ev);
+        let r = self.inner.pop();
+        ev.phase = Phase::After;
+        if let Some(v) = &r {
+            ev.found = true;
+            ev.key = Some(v.verif_key());
+        }
+        emit(&ev);
+        r
+    }
+
+    /// see crossbeam
+    pub fn len(&self) -> usize {
+        if !hook_active() {
+            return self.inner.len();
+        }
+        let mut ev = Event::base(Phase::Before, self.id, Class::Queue, Kind::Len);
+        emit(&ev);
+        let r = self.inner.len();
+        ev.phase = Phase::After;
+        ev.old = r as u64;
+        emit(&ev);
+        r
+    }
+
+    /// see crossbeam
+    pub fn is_empty(&self) -> bool {
+        self.len() == 0
+    }
+}
+
+impl<T: VerifKey> Default for SegQueue<T> {
+    fn default() -> Self {
+        Self::new()
+    }
+}
+
+impl<T> std::ops::Deref for SegQueue<T> {
+    type Target = crossbeam::queue::SegQueue<T>;
+    fn deref(&self) -> &Self::Target {
+        if hook_active() {
+            let mut ev = Event::base(Phase::Before, self.id, Class::Queue, Kind::Other);
+            emit(&ev);
+            ev.phase = Phase::After;
+            emit(&ev);
+        }
+        &self.inner
+    }
+}
+
+impl<T> std::fmt::Debug for SegQueue<T> {
+    fn fmt(&self, f: &mut std::fmt::Formatter<'_>) -> std::fmt::Result {
+        std::fmt::Debug::fmt(&self.inner, f)
+    }
+}
